@@ -325,7 +325,9 @@ def mut_flatten(m):
         FIRED[0] = 1
         mutate()
     return (m.x,), None, ('x',)
-optree.register_pytree_node(Mut, mut_flatten, lambda md, ch: Mut(*ch), namespace=NS)
+CONTROL = TRAV == 'control'        # pure CPython: the same container, keys and mutation, optree is not even imported
+if not CONTROL:
+    optree.register_pytree_node(Mut, mut_flatten, lambda md, ch: Mut(*ch), namespace=NS)
 
 KEYHOOK = POS.startswith('key_')
 IS_SPECS = TRAV == 'constructor'
@@ -461,11 +463,23 @@ try:
         result = optree.tree_broadcast_prefix(OTHER, C, is_leaf=PRED, **kw)
     elif TRAV == 'constructor':
         result = optree.treespec_from_collection(C, **kw)
+    elif TRAV == 'control':
+        if KIND in ('list', 'deque'):
+            result = [x for x in C]
+        else:
+            ks = list(C)                                  # what the engine does to list the keys ...
+            if KIND != 'odict':
+                try: ks = sorted(ks)                      # ... to order them ...
+                except TypeError: pass
+            result = [C[k] for k in ks]                   # ... and to fetch the values
     else:
         raise AssertionError(TRAV)
 except BaseException as e:
     exc = e
 ARMED[0] = False
+if CONTROL:
+    print('OUTCOME: control finished', flush=True)
+    sys.exit(0)
 print('OUTCOME:', 'fired=%d' % FIRED[0], ('exc ' + type(exc).__name__ + ': ' + str(exc)[:100]) if exc is not None else 'result')
 if exc is not None:
     if null_symptom(exc):
@@ -515,6 +529,14 @@ except BaseException as e:
               % (TRAV, KIND, MUT, POS, type(e).__name__, str(e)[:200]))
 sys.exit(0)
 '''
+
+def mutation_control_script(p: dict) -> str:
+    """The same container / key class / callback position / mutation, traversed by plain Python instead of optree."""
+    q = dict(p, trav='control')
+    prelude = PRELUDE.replace('import optree\n', '').replace("GLOBAL_NS = getattr(optree.registry, '__GLOBAL_NAMESPACE')\n", '')
+    assert 'optree' not in prelude.replace('optree.InternalError', ''), 'control prelude must not use optree'
+    return prelude + '\nP = ' + repr(q) + '\n' + _MUT_BODY
+
 
 MUT_TRAVS = ['flatten', 'flatten_with_path', 'iter', 'flatten_up_to', 'map', 'map_rest', 'broadcast_prefix', 'constructor']
 MUT_KINDS = ['list', 'dict', 'odict', 'ddict', 'deque']
@@ -1040,6 +1062,25 @@ if got.startswith('SystemError:'):
 sys.exit(0)
 '''
 
+# CPython itself overflows the C stack when it deallocates some deeply nested containers (types whose tp_dealloc does not
+# take part in the "trashcan", e.g. defaultdict and deque): the control builds the same nesting without optree.
+_CONTROL_BODY = r'''
+import sys, os
+from collections import OrderedDict, defaultdict, deque, namedtuple
+KIND, K = P['kind'], P['k']
+NT = namedtuple('NT', 'only')
+class Cu:
+    def __init__(self, x): self.x = x
+mk = {'tuple': lambda x: (x,), 'list': lambda x: [x], 'dict': lambda x: {'k': x}, 'odict': lambda x: OrderedDict(k=x),
+      'ddict': lambda x: defaultdict(list, k=x), 'deque': lambda x: deque([x]), 'namedtuple': NT, 'custom': Cu}[KIND]
+t = 1
+for _ in range(2 ** K):
+    t = mk(t)
+del t
+sys.exit(0)
+'''
+MATERIALIZING_OPS = ('unflatten', 'unflatten_flatten', 'unflatten_up_to', 'del', 'traverse')
+
 DEEP_OPS = ['paths', 'accessors', 'broadcast_to_common_suffix', 'broadcast_leaf', 'repr', 'hash', 'eq', 'is_prefix', 'pickle',
             'children', 'unflatten', 'unflatten_flatten', 'unflatten_up_to', 'walk', 'traverse', 'transform', 'transform_none',
             'compose', 'constructor', 'del']
@@ -1147,6 +1188,18 @@ def run(tier: str, seed: int) -> BoundedReport:
             jobs.append((name, i, [(cid, code) for cid, code, _ in cases[i:i + bs]], kw))
     for i, case in enumerate(deep):
         jobs.append(('deep', i, case, None))
+    # control: which (kind, depth) cannot even be built and freed by CPython alone?
+    controls = sorted({(p['kind'], p['k']) for _, _, p in deep})
+    ctl = U.pmap(lambda kk: (kk, U.run_child('P = ' + repr({'kind': kk[0], 'k': kk[1]}) + _CONTROL_BODY, timeout=300.0)), controls)
+    unsafe = sorted(kk for kk, r in ctl if r.rc != 0)
+    if unsafe:
+        notes.append('CPython alone crashes when it frees these nestings built without optree (their tp_dealloc recursion is not '
+                     'bounded), so operations that materialise such a tree are skipped for them: '
+                     + ', '.join(f'{k} 2^{d}' for k, d in unsafe))
+        deep = [c for c in deep if not ((c[2]['kind'], c[2]['k']) in unsafe and c[2]['op'] in MATERIALIZING_OPS)]
+        jobs = [j for j in jobs if j[0] != 'deep']
+        for i, case in enumerate(deep):
+            jobs.append(('deep', i, case, None))
     # reading an uninitialised instance is undefined behaviour whose symptom depends on the state of the heap:
     # one fresh child per case keeps the observation deterministic
     uninit = uninit_cases(tier)
@@ -1169,6 +1222,29 @@ def run(tier: str, seed: int) -> BoundedReport:
     for name, cases, _ in sections + [('uninit', uninit, None), ('deep', deep, None)]:
         outs = [o for _, os_ in sorted(by_section.get(name, []), key=lambda x: x[0]) for o in os_]
         all_results.append((name, cases, outs))
+
+    # control for crashes that happen while CPython itself iterates / indexes the user's container inside a key callback:
+    # if plain Python (no optree imported) dies on the same container, keys and mutation, the crash is CPython's
+    control_cache: dict = {}
+    cpython_crashes = []
+    for name, cases, outs in all_results:
+        if name != 'mut':
+            continue
+        todo = [(c, o) for c, o in zip(cases, outs) if o.status == 'crash' and c[2]['pos'].startswith('key_')]
+        keys = sorted({json.dumps({k: v for k, v in c[2].items() if k not in ('trav', 'nil')}, sort_keys=True) for c, _ in todo})
+        ctl = U.pmap(lambda k: (k, U.run_child(mutation_control_script(dict(json.loads(k), trav='control', nil=False)), timeout=60.0)), keys)
+        control_cache = {k: r for k, r in ctl}
+        for c, o in todo:
+            k = json.dumps({kk: v for kk, v in c[2].items() if kk not in ('trav', 'nil')}, sort_keys=True)
+            if control_cache[k].crashed:
+                o.status = 'ok'
+                o.detail = 'attributed to CPython'
+                cpython_crashes.append(c[0])
+    if cpython_crashes:
+        kinds = sorted({(c.split('/')[2], c.split('/')[3].split('#')[0], c.split('/')[4]) for c in cpython_crashes})
+        notes.append(f'{len(cpython_crashes)} mutation cases crash, but the control (the same container, key class and mutation traversed by '
+                     'plain Python, optree not imported: list(c), sorted(keys), c[k]) crashes CPython as well; they are attributed '
+                     'to CPython and are not findings: ' + ', '.join('/'.join(k) for k in kinds[:12]))
 
     for name, cases, outs in all_results:
         st = {'ok': 0, 'violation': 0, 'crash': 0, 'timeout': 0, 'harness': 0}
